@@ -1,7 +1,7 @@
 SPECIFICATION MCSpec
 CONSTANT ConfigSet <- ConfigsQuick
 INVARIANTS TypeOK Internal_OpenNotFull
-  C01_NilMeansAcked C01_ErrorsExact C01_CompletionOnce C01_NoStrayWrites C01_DupOnlyFromLostAck
+  C01_NilMeansAcked C01_ErrorsExact C01_CompletionOnce C01_CompletionEvery C01_NoStrayWrites C01_DupOnlyFromLostAck
   C07_Order C07_OrderInRequest C08_Limits C08_RejectedUnsent C08_RejectedExactly
   C09w_AfterClose C09w_CloseMeansDrained C09w_AttemptsBounded
 PROPERTIES C09w_QuietAfterClose
